@@ -11,6 +11,7 @@ Dynamic Time Warping (DTW), C implementation.
 """
 from cpython cimport array
 import array
+import numbers
 from cython import Py_ssize_t
 from cython.view cimport array as cvarray
 from libc.stdlib cimport abort, malloc, free, abs, labs
@@ -129,7 +130,7 @@ cdef class DTWSettings:
                 self._settings.psi_2b = 0
                 self._settings.psi_2e = 0
             else:
-                if type(kwargs["psi"]) is int:
+                if isinstance(kwargs["psi"], numbers.Integral):
                     self._settings.psi_1b = kwargs["psi"]
                     self._settings.psi_1e = kwargs["psi"]
                     self._settings.psi_2b = kwargs["psi"]
